@@ -518,7 +518,7 @@ func getspecMode(t *testing.T, enc *json.Encoder) {
 								outcome = "panicked"
 							}
 						}()
-						w, _ = spec.Walk(ctx, st, []interface{}{deepCopyJSON(m)}, &core.Control{Limit: 12}, nil)
+						w, _ = spec.Walk(ctx, st, []interface{}{deepCopyJSON(m)}, &core.Control{Limit: 100}, nil)
 					}()
 					if w == nil {
 						steps = append(steps, vO{"outcome": outcome, "none": true})
